@@ -3133,7 +3133,13 @@ def merge_dequant_lut_quant(op, arch, nng=None):
     lut_op.set_output_tensor(ofm)
     lut_op.set_ifm_ofm_shapes()
 
-    if not arch.tflite_supported_operators.is_operator_supported(lut_op):
+    from .tflite_model_semantic import TFLiteSemantic
+
+    # (the semantic checks ran on the float operators: the quantization parameters of the merged operator's tensors
+    # have not been looked at yet)
+    if not TFLiteSemantic().is_operator_semantic_valid(lut_op) or not arch.tflite_supported_operators.is_operator_supported(
+        lut_op
+    ):
         # The merged operator would be left on the CPU, where only the original float operators are valid: undo
         lut_op.set_input_tensor(float_ifm, 0)
         if lut_op in ifm.consumer_list:
